@@ -109,8 +109,17 @@ def run_case(mod, seed: int, params: dict, replay: list | None = None, keep_labe
         except (KeyboardInterrupt, SystemExit):
             raise
         except BaseException as e:  # noqa
-            out.update(status="harness_error",
-                       message=f"{type(e).__name__}: {e}\n" + traceback.format_exc()[-3000:])
+            tb = sys.exc_info()[2]
+            frames = traceback.extract_tb(tb)
+            fr = core.repo_frame_of(tb)
+            if fr is not None and frames and os.path.realpath(frames[-1].filename).startswith(os.path.realpath(core.REPO) + os.sep):
+                # raised INSIDE the code under test and not handled by it or by the check's oracle: on the unchanged tree this
+                # does not happen (it would be reported here); under a changed tree it is how some defects show
+                out.update(status="violation", klass="unexpected_exception", signature=f"unexpected_exception:{type(e).__name__}:{fr}",
+                           message=f"{type(e).__name__}: {e} raised at {fr} escaped the run\n" + traceback.format_exc()[-1500:])
+            else:
+                out.update(status="harness_error",
+                           message=f"{type(e).__name__}: {e}\n" + traceback.format_exc()[-3000:])
         out["steps"] = sim.loop.steps
         out["vtime"] = sim.loop.time()
         out["digest"] = sim.digest
